@@ -22,7 +22,10 @@ open Conc List
 /-- **Premise, tied to the code.** No instruction outside package initialisation stores through an
     address derived from a package-level variable, updates a package-level map, passes such an address
     to a function that stores through it, or calls a mutating container method on a package-level
-    value.  (Re-checked against the regenerated list on every run.) -/
+    value; no package-level variable's own type holds a synchronisation primitive, pool or channel
+    (state meant to be mutated by concurrent callers); and the address of no package-level variable
+    is handed to code the extraction does not see into (dynamic call, call into another package,
+    closure, heap store, return value).  (Re-checked against the regenerated list on every run.) -/
 theorem no_global_writes : Generated.globalWrites = [] := rfl
 
 /-- the only injectable package-level state is the documented clock; it is among the package's
